@@ -252,6 +252,36 @@ def Metrics.run (waits : Bool) (s : Metrics) : List MEv → Option Metrics
     | some s' => s'.run waits rest
     | none => none
 
+/-! ### `Shutdown` and the server's connections (D37)
+
+`Shutdown` returns when no connection is active any more. Whether an active connection ever stops being
+active is up to its client (a request body that is announced and never sent, an hour of CPU profile): the
+`stalled` ones never do. Since D37 `Stop` gives `Shutdown` a deadline and closes what is left. -/
+
+structure MConns where
+  active : Nat := 0            -- connections with a request in progress
+  stalled : Nat := 0           -- of those, the ones whose client never lets the request end
+  shutdownReturned : Bool := false
+  deriving DecidableEq, Repr
+
+inductive CEv where
+  | finish       -- an active connection whose client plays along becomes idle (and is closed)
+  | deadline     -- the deadline of Stop passes: the remaining connections are closed
+  | returns      -- `Shutdown` (or the `Close` after it) returns
+  deriving DecidableEq, Repr
+
+/-- `bounded = true`: Stop has the deadline (the repaired server) -/
+def MConns.step (bounded : Bool) (c : MConns) : CEv → Option MConns
+  | .finish => if c.stalled < c.active then some { c with active := c.active - 1 } else none
+  | .deadline => if bounded && !c.shutdownReturned then some { c with active := 0, stalled := 0 } else none
+  | .returns => if c.active = 0 && !c.shutdownReturned then some { c with shutdownReturned := true } else none
+
+def MConns.run (bounded : Bool) (c : MConns) : List CEv → Option MConns
+  | [] => some c
+  | e :: rest => match c.step bounded e with
+    | some c' => c'.run bounded rest
+    | none => none
+
 /-! ## The JWT hook's refresh loop (`middleware/jwt/jwt.go`)
 
 One goroutine: `select { closing → return; after(interval) → updateKeys }`. `updateKeys` fetches the JWK set and
